@@ -170,7 +170,14 @@ def impl_matches(line):
     if line is None:
         return "MISSING", ""
     if line.startswith("COMPILE"):
-        return " ".join(line.split(" ")[:2]), line[:200]
+        w = line.split(" ")
+        msg = ""
+        if len(w) > 3 and w[-1].startswith("x"):
+            try:
+                msg = C.unhex(w[-1]).decode("latin1").replace("\n", " | ")
+            except Exception:
+                msg = w[-1][:80]
+        return " ".join(w[:2]), " ".join(w[2:3]) + " " + msg[:200]
     if line in ("HANG", "CRASH"):
         return line, ""
     f = C.fields(line)
